@@ -119,9 +119,13 @@ func (fr *Frame) buildReplayInfo(fc *FuncContract) *ReplayInfo {
 						rp.Terms["f:"+f.Name()] = fv.C[0].S
 					}
 				case *types.Slice:
+					fv := fr.loadField(st, v.Term(), sname, stt, k)
 					if isByteLike(fu.Elem()) {
-						fv := fr.loadField(st, v.Term(), sname, stt, k)
 						addBytes(rp.Terms, "f:"+f.Name()+".", fv)
+					} else {
+						// other slices: only shape (nil-ness and length); elements are zero values / fresh objects
+						rp.Terms["s:"+f.Name()+".len"] = fv.Len().S
+						rp.Terms["s:"+f.Name()+".nil"] = Eq(fv.Obj(), Nil).S
 					}
 				}
 			}
@@ -364,6 +368,22 @@ func genReplayTest(ri *ReplayInfo, o *Obligation, vals map[string]string) (strin
 						setup = append(setup, fmt.Sprintf("%s.%s = %s(%s)", name, f.Name(), fts, v.String()))
 						fmt.Fprintf(&desc, "%s:%s ", f.Name(), v.String())
 					}
+				} else if lt, ok := p.Terms["s:"+f.Name()+".len"]; ok {
+					if vals[p.Terms["s:"+f.Name()+".nil"]] == "true" {
+						continue
+					}
+					n, ok := parseSMTInt(vals[lt])
+					if !ok || n.Sign() < 0 || n.Cmp(big.NewInt(64)) > 0 {
+						continue
+					}
+					sts := types.TypeString(f.Type(), qual)
+					setup = append(setup, fmt.Sprintf("%s.%s = make(%s, %s)", name, f.Name(), sts, n.String()))
+					if pe, ok := f.Type().Underlying().(*types.Slice).Elem().Underlying().(*types.Pointer); ok {
+						if _, isStruct := pe.Elem().Underlying().(*types.Struct); isStruct {
+							setup = append(setup, fmt.Sprintf("for i := range %s.%s { %s.%s[i] = new(%s) }", name, f.Name(), name, f.Name(), types.TypeString(pe.Elem(), qual)))
+						}
+					}
+					fmt.Fprintf(&desc, "%s:len=%s ", f.Name(), n.String())
 				} else if _, ok := p.Terms["f:"+f.Name()+".len"]; ok {
 					lit, _, ok := goBytesLit(vals, p.Terms, "f:"+f.Name()+".")
 					if ok && vals[p.Terms["f:"+f.Name()+".nil"]] != "true" {
